@@ -256,8 +256,9 @@ def run_check(cid: str, tier: str, seed: int) -> int:
         "wall_s": round(time.time() - t0, 2),
         "violations": len(seen_replay),
     }
-    os.makedirs(os.path.join(VERIF_DIR, "evidence"), exist_ok=True)
-    with open(os.path.join(VERIF_DIR, "evidence", f"{cid}.json"), "w") as fh:
+    ev_dir = os.environ.get("EQL_EVIDENCE_DIR") or os.path.join(VERIF_DIR, "evidence")
+    os.makedirs(ev_dir, exist_ok=True)
+    with open(os.path.join(ev_dir, f"{cid}.json"), "w") as fh:
         json.dump(evidence, fh, indent=1, default=repr)
 
     status = "VIOLATED" if violations else ("INCONCLUSIVE" if inconclusive else "held")
